@@ -343,9 +343,9 @@ def case_fasta(rng, ctx):
             seqs, expected = [], []
             for h, kind, s in entries:
                 sq = B.Prot(s) if kind == "prot" else B.Nuc(s)
-                rna = kind != "prot" and rng.random() < 0.25
+                rna = rng.random() < 0.25      # documented to act on NucleotideSequence objects only
                 seqs.append((h, kind, s, sq, rna))
-                expected.append((h.strip(), s.replace("T", "U") if rna else s))
+                expected.append((h.strip(), s.replace("T", "U") if rna and kind != "prot" else s))
             if len({r[4] for r in seqs}) <= 1 and rng.random() < 0.5:
                 B.fasta.set_sequences(f, OrderedDict((r[0], r[3]) for r in seqs), as_rna=bool(seqs and seqs[0][4]))
             else:
